@@ -68,12 +68,17 @@ func (r *ShallowUpdate) decodeUnshallowLine(line []byte) error {
 }
 
 func (r *ShallowUpdate) decodeLine(line, prefix []byte, expLen int) (plumbing.Hash, error) {
-	if len(line) != expLen {
+	// expLen is the line length for a SHA-1 id; SHA-256 ids are 24 digits longer.
+	if len(line) != expLen && len(line) != expLen+24 {
 		return plumbing.ZeroHash, fmt.Errorf("malformed %s%q", prefix, line)
 	}
 
-	raw := string(line[expLen-40 : expLen])
-	return plumbing.NewHash(raw), nil
+	raw := string(line[expLen-40:])
+	h, ok := plumbing.FromHex(raw)
+	if !ok {
+		return plumbing.ZeroHash, fmt.Errorf("malformed %s%q", prefix, line)
+	}
+	return h, nil
 }
 
 // Encode writes the shallow update to the writer.
